@@ -430,6 +430,15 @@ class Models(object):
             self.wr(st, a[0], VecV(cells, S.Sub(v.length, b64(1))))
             return e, st, S.Ult(idx, v.length)
         R('Vec::remove', vec_remove)
+        def iter_take(ex, fr, c, a, st, pc):
+            it = a[0]
+            if not (isinstance(it, tuple) and it[0] == 'veciter' and S.is_const(it[2]) and S.cval(it[2]) == 0):
+                raise Unsupported('Iterator::take on %r' % (it,))
+            _, vec, idx, mode = it
+            return ('veciter', VecV(vec.cells, S.Umin(vec.length, a[1])), idx, mode), S.TRUE
+        R('<IntoIter as Iterator>::take|<Iter as Iterator>::take', iter_take)
+        R('<Take as IntoIterator>::into_iter|<Filter as IntoIterator>::into_iter', lambda ex, fr, c, a, st, pc: (a[0], S.TRUE))
+        R('<Take as Iterator>::next', self.iter_next)
         R('<IntoIter as Iterator>::filter|<Iter as Iterator>::filter', lambda ex, fr, c, a, st, pc: (('filteriter', a[0], a[1]), S.TRUE))
 
         def filter_collect(ex, fr, c, a, st, pc):
